@@ -247,8 +247,16 @@ def coq_eval_lines(scratch, name, requires, prelude, exprs, timeout=900, shard=4
     lines = []
     for fname, n in files:
         rc, out, err, n = results[fname]
+        if rc != 0 and not err.strip():
+            # killed without a message (the shell timeout under heavy machine load, or the OOM killer while
+            # many coqc ran at once): retry this one file alone, with three times the time
+            cmd = ["timeout", str(timeout * 3), "coqc", "-Q", COQ, LOGICAL, "-w",
+                   "-notation-overridden,-deprecated-hint-without-locality,-deprecated-instance-without-locality",
+                   fname]
+            r = subprocess.run(cmd, cwd=scratch.dir, capture_output=True, text=True, preexec_fn=_deep_stack)
+            rc, out, err = r.returncode, r.stdout, r.stderr
         if rc != 0:
-            raise RuntimeError(f"coqc failed on generated {fname}: {err[-2000:]}")
+            raise RuntimeError(f"coqc failed on generated {fname} (exit {rc}): {err[-2000:]}")
         m = re.search(r'=\s*"(.*)"\s*:\s*string\s*$', out, re.S)
         if not m:
             raise RuntimeError(f"cannot parse coqc output for {fname}: {out[-500:]}")
